@@ -36,9 +36,20 @@ fn any_char(r: &mut StdRng) -> char {
         0..=8 => pick(r, LETTERS),
         9..=12 => pick(r, SPECIALS),
         13..=18 => pick(r, WIDE),
-        _ => {
-            if r.gen_range(0..4) == 0 { pick(r, UNLISTED) } else { pick(r, LETTERS) }
-        }
+        _ => match r.gen_range(0..4) {
+            0 => pick(r, UNLISTED),
+            1 => {
+                // any Unicode scalar value (1 to 4 bytes in UTF-8; cased or not)
+                let cp = match r.gen_range(0..4) {
+                    0 => r.gen_range(0x80..0x800),
+                    1 => r.gen_range(0x800..0xd800),
+                    2 => r.gen_range(0xe000..0x10000),
+                    _ => r.gen_range(0x10000..0x110000),
+                };
+                char::from_u32(cp).unwrap_or('x')
+            }
+            _ => pick(r, LETTERS),
+        },
     }
 }
 
